@@ -470,8 +470,9 @@ class CmdStream(Stream):
             par = posixpath.dirname(d)
             can_place = d not in before and (before.get(par, ("", ""))[0] == "d" or (
                 par not in before and before.get(posixpath.dirname(par), ("", ""))[0] == "d"))
-            if not can_place or pathy(t) or too_long(t):
-                # (an "identifier" with a path separator names no LICENSES/<identifier>.txt; one that is too long for a file name cannot be stored)
+            if not can_place or pathy(t) or (too_long(t) and case["output"] is None):
+                # (an "identifier" with a path separator names no LICENSES/<identifier>.txt; one that is too long for a file name cannot be
+                # stored there -- under --output the file name is the output's, whatever the length of the identifier)
                 expect[t] = None
             elif is_ref(t):
                 if src is None:
